@@ -654,6 +654,9 @@ TESTS = [
          must_cover=["n=255", "n=256", "honest_ok", "keys:wrong_in", "keys:big_in", "keys:same_as_out", "eph_input_equals_output", "dishonest_reject", "zero_key",
                      "mut:bitflip", "mut:count_minus", "mut:count_plus", "mut:tag_selected_replace", "mut_reject",
                      "near_dup_only", "near_dup_and_exact", "near_dup_shares_8_bytes", "near_dup_exact_index_ok"]),
+    # the builtin popcount variant an autotools build selects (bit counting of the used-inputs bitmap), and the 32-bit limb build
+    Test("pipeline_cfg", pipeline_case, run_pipeline, quick=260, thorough=3000, max_workers=3,
+         cfgs={"quick": ["builtins", "int64"], "thorough": ["builtins", "int64", "struct"]}, must_cover=["honest_ok", "n=255", "n=256"]),
     Test("verify_strings", string_case, run_strings, quick=1200, thorough=30000, cfgs=_CFG, max_workers=6,
          must_cover=["ref_prover", "accept", "reject", "parse_reject", "s_plus_n_twin", "twin_of_valid_proof", "empty_selection_hash_forgery", "selected_input_is_output", "count_mismatch",
                      "mut:padbit", "mut:nfield", "mut:s_zero", "n=0", "n=256"]),
